@@ -446,4 +446,15 @@ def real_map(record):
     d = record_to_defs(record)
     classes = DefinitionsMapper.map(d)
     names = {id(c): c.qname for c in classes}
-    return [canon_class(c, names) for c in classes]
+    out = [canon_class(c, names) for c in classes]
+    # shared state: mapping the same Definitions object again must give the same classes
+    # (the envelope classes share `ns_map` dicts with the WSDL elements)
+    again = DefinitionsMapper.map(d)
+    names2 = {id(c): c.qname for c in again}
+    if [canon_class(c, names2) for c in again] != out:
+        raise StatefulMapping("second DefinitionsMapper.map on the same Definitions differs")
+    return out
+
+
+class StatefulMapping(Exception):
+    pass
